@@ -29,7 +29,7 @@ def check(run):
     # 3. spec -> code replay
     r = run.tlc("Verify", "Verify_emit_quick.cfg" if quick else "Verify_emit_thorough.cfg",
                 raw_cases=True, expect_cases=True, timeout=3000)
-    bad = ve.replay(run, r, opts={"strip": False})
+    bad = ve.replay(run, r, opts={"strip": False, "broken_stdout": 0.15})
     run.exhaustive = True
     for o in bad:
         if owns(o):
